@@ -573,3 +573,17 @@ func EqualParams(a, b map[string]string) bool {
 	}
 	return true
 }
+
+// FmtParams renders a parameter map with sorted keys.
+func FmtParams(m map[string]string) string {
+	keys := make([]string, 0, len(m))
+	for k := range m {
+		keys = append(keys, k)
+	}
+	sort.Strings(keys)
+	var sb strings.Builder
+	for _, k := range keys {
+		sb.WriteString(k + "=" + m[k] + ";")
+	}
+	return sb.String()
+}
